@@ -198,6 +198,11 @@ class Check(PropertyCheck):
             exp = lst(ids(v.raw_ready()))
         elif name in ("unscheduled", "unsched_observer"):
             exp = lst(ids(v.unscheduled()))
+            if name == "unsched_observer" and getattr(impl, "unsched_observer", None) is not None:
+                n_obs = impl.unsched_observer.num_unscheduled_operations
+                if n_obs != len(v.unscheduled()):
+                    res.append(("query:num_unscheduled", f"the unscheduled-operations observer reports num_unscheduled_operations = {n_obs}, "
+                                f"recomputation from the schedule: {len(v.unscheduled())}"))
         elif name == "scheduled":
             exp = lst(ids(v.scheduled()))
         elif name == "completed":
